@@ -36,7 +36,9 @@ __all__ = [
 
 @cache
 def find_rule(source: Any, name: str) -> Func | None:
-    for rulename in {name, name.strip('_'), f'_{name}_', f'_{name}'}:
+    # NOTE a tuple, not a set: when several spellings exist as rules, which one
+    #   is found must not depend on the hash seed of the process
+    for rulename in (name, name.strip('_'), f'_{name}_', f'_{name}'):
         action = getattr(source, safe_name(rulename), None)
         if callable(action):
             return action
